@@ -4,6 +4,7 @@ go 1.21
 
 require (
 	github.com/0chain/common v0.0.0
+	github.com/fxamacker/cbor/v2 v2.7.0
 	github.com/linxGnu/grocksdb v1.8.0
 	github.com/shopspring/decimal v1.3.1
 	go.uber.org/zap v1.21.0
@@ -11,7 +12,6 @@ require (
 
 require (
 	github.com/fsnotify/fsnotify v1.5.4 // indirect
-	github.com/fxamacker/cbor/v2 v2.7.0 // indirect
 	github.com/hashicorp/golang-lru v0.5.4 // indirect
 	github.com/hashicorp/hcl v1.0.0 // indirect
 	github.com/magiconair/properties v1.8.6 // indirect
